@@ -260,6 +260,26 @@ def c14_faults(r, seed, tier, model_ok):
                 if got2.startswith("HOST"): bad.append(dict(program=prog2, history=f"open {what} mode {mw} under a reject handler", impl=got2, model="a value or a language-level exception", which=["host"]))
                 for leftover in ("none", "x" * 300):
                     if os.path.exists(leftover): os.remove(leftover)
+        # the DEVICE refuses the data: a full device (the failure arrives when the buffered bytes are flushed, not at write()), a pipe whose reader
+        # is gone (a descriptor given to ㄱㄴ): small and large writes, then tell / close, with and without a reject handler
+        def dev_cases(target, what):
+            nonlocal n
+            for mw in ("ㅈㄹ", "ㅈㄱ", "ㄹㅈㄹ", "ㅈㄹㄹ"):
+                for size in (1, 3, 20000):
+                    for tail_ in ("", "close", "tell"):
+                        ops = [("write", b"x" * size)] + ([(tail_,)] if tail_ else [])
+                        tgt = target()
+                        if tgt is None: continue
+                        prog = file_program_total("@", mw_to_mode[mw], ops).replace(st("@"), tgt); got, _ = run_main(prog); n += 1; dist[got.split()[0] + ":" + what] += 1
+                        if got.startswith("HOST"): bad.append(dict(program=prog, history=f"{what} mode {mw} {ops[0][0]} {size} bytes {tail_}", impl=got, model="a value or a language-level exception", which=["host"]))
+        mw_to_mode = {v: k for k, v in MODES.items()}
+        if os.path.exists("/dev/full"): dev_cases(lambda: st("/dev/full"), "dev-full")
+        import signal as _sg
+        old_pipe = _sg.signal(_sg.SIGPIPE, _sg.SIG_IGN)
+        def broken_pipe():
+            rfd, wfd = os.pipe(); os.close(rfd); return E(wfd)
+        try: dev_cases(broken_pipe, "broken-pipe")
+        finally: _sg.signal(_sg.SIGPIPE, old_pipe)
     finally:
         os.chdir(cwd); shutil.rmtree(d, ignore_errors=True)
     r.slice("file_faults", n, n, ["mode x (0..2 harmless ops | close) x one forbidden / malformed operation"], dict(dist), "fault injection over handle states; oracle: never a host exception, disk unchanged unless a permitted write", bad[:40])
